@@ -29,7 +29,8 @@ func init() {
 				"the fields of the pooled request information are written only by the rate-limit middleware that owns it.",
 			NotCovered: "equivalence of concurrent and sequential executions over all schedules (the property's quantifier); sync.Pool's own semantics.",
 			Rules: map[string]string{"C07-R1": "pooled objects fully re-initialised", "C07-R2": "no use after release", "C07-R3": "dispose gates and order",
-				"C07-R4": "caches clone in and out", "C07-R5": "deep-copy discipline; clone/dispose tables agree", "C07-R6": "who writes RequestInfo"},
+				"C07-R4": "caches clone in and out", "C07-R5": "deep-copy discipline; clone/dispose tables agree", "C07-R6": "who writes RequestInfo",
+				"C07-R8": "pooled receive buffers: no use after Put, no Put by the creator after hand-over to a worker, no Put while a returned object keeps a slice of the buffer (shared with C06-R2)"},
 		}})
 }
 
@@ -175,6 +176,8 @@ func c07CallerSets(typ, field string) (string, bool) {
 }
 
 func runC07(c *an.Ctx) {
+	c.Floor("C07-R8", 4)
+	c06BufferLifetime(c, "C07-R8")
 	c.Inf("C07-R5", "whole-struct copies", token.NoPos, "%d whole-struct copies in package dnsmsg examined", sharedNoShallowCopy(c, "C07-R5", "dnsmsg."))
 	c.Inf("C07-R1", "pooled buffers", token.NoPos, "%d Pool.Get sites of byte buffers / string builders in the whole repository checked for Reset-before-use",
 		sharedPoolBufferReset(c, "C07-R1", ""))
